@@ -63,6 +63,16 @@ inductive Arr where
   | ltpVq1        -- silk_LTP_gain_vq_1[ 16 ][ 5 ]
   | ltpVq2        -- silk_LTP_gain_vq_2[ 32 ][ 5 ]
   | ltpScales     -- silk_LTPScales_table_Q14[ 3 ]
+  -- output stage of silk_Decode (model in OpusModel/SilkSynthIdxOut.lean)
+  | tmpStore      -- ALLOC( samplesOut1_tmp_storage1, nChannelsInternal*(frame_length + 2), opus_int16 )   dec_API.c:314
+  | out2          -- ALLOC( samplesOut2_tmp, *nSamplesOut, opus_int16 )                                    dec_API.c:379
+  | samplesOut    -- the caller's output buffer: nChannelsAPI * nSamplesOut samples
+  | sMid          -- psDec->sStereo.sMid[ 2 ]
+  | sSide         -- psDec->sStereo.sSide[ 2 ]
+  | predPrev      -- psDec->sStereo.pred_prev_Q13[ 2 ]
+  | msPred        -- the local MS_pred_Q13[ 2 ]
+  | delayBuf0     -- channel_state[ 0 ].resampler_state.delayBuf[ 48 ]
+  | delayBuf1     -- channel_state[ 1 ].resampler_state.delayBuf[ 48 ]
   deriving DecidableEq, Repr
 
 def Arr.name : Arr → String
@@ -75,13 +85,15 @@ def Arr.name : Arr → String
   | .cngSmthNlsf => "CNG_smth_NLSF_Q15" | .cngSynth => "CNG_synth_state" | .cngSig => "CNG_sig_Q14"
   | .prevNlsf => "prevNLSF_Q15" | .gainsIdx => "GainsIndices" | .ltpIdx => "LTPIndex" | .nlsfIdx => "NLSFIndices"
   | .ltpVqPtrs => "LTP_vq_ptrs" | .ltpVq0 => "LTP_vq_0" | .ltpVq1 => "LTP_vq_1" | .ltpVq2 => "LTP_vq_2"
-  | .ltpScales => "LTPScales"
+  | .ltpScales => "LTPScales" | .tmpStore => "samplesOut1_tmp_storage1" | .out2 => "samplesOut2_tmp"
+  | .samplesOut => "samplesOut" | .sMid => "sMid" | .sSide => "sSide" | .predPrev => "pred_prev_Q13"
+  | .msPred => "MS_pred_Q13" | .delayBuf0 => "delayBuf0" | .delayBuf1 => "delayBuf1"
 
 def Arr.all : List Arr :=
   [.sLTP, .sLTP_Q15, .res_Q14, .sLPC_Q14, .exc_Q14, .outBuf, .sLPC_Q14_buf, .predCoef, .ltpCoef, .gains,
    .pitchL, .xq, .pulses, .aTmp, .quantOffsets, .sLTP_Q14, .exc_buf, .plcLtp, .prevLPC, .prevGain, .aPlc, .attTab,
    .cngExcBuf, .cngSmthNlsf, .cngSynth, .cngSig, .prevNlsf, .gainsIdx, .ltpIdx, .nlsfIdx, .ltpVqPtrs, .ltpVq0, .ltpVq1,
-   .ltpVq2, .ltpScales]
+   .ltpVq2, .ltpScales, .tmpStore, .out2, .samplesOut, .sMid, .sSide, .predPrev, .msPred, .delayBuf0, .delayBuf1]
 
 /-- One access: elements `[lo, hi)` of `arr`, read or written. -/
 structure Acc where
@@ -100,6 +112,10 @@ structure Cfg where
   ltpMem : Int
   subfr : Int
   frameLen : Int
+  /-- only for the output stage of silk_Decode: channel counts and the API rate -/
+  nChInt : Int := 1
+  nChAPI : Int := 1
+  apiKHz : Int := 48
   deriving Repr
 
 def cfgOf (fsKHz : Int) (nb : Nat) : Cfg :=
@@ -147,6 +163,15 @@ def Arr.size (c : Cfg) : Arr → Int
   | .ltpVq1 => SilkSynth.szLtpVq1
   | .ltpVq2 => SilkSynth.szLtpVq2
   | .ltpScales => SilkSynth.szLtpScales
+  | .tmpStore => c.nChInt * (c.frameLen + 2)
+  | .out2 => c.frameLen * c.apiKHz / c.fsKHz
+  | .samplesOut => c.nChAPI * (c.frameLen * c.apiKHz / c.fsKHz)
+  | .sMid => SilkSynth.szSMid
+  | .sSide => SilkSynth.szSSide
+  | .predPrev => SilkSynth.szPredPrev
+  | .msPred => 2
+  | .delayBuf0 => SilkSynth.szDelayBuf
+  | .delayBuf1 => SilkSynth.szDelayBuf
 
 /-- The access lies inside the array. -/
 def Acc.inBounds (c : Cfg) (a : Acc) : Prop := 0 ≤ a.lo ∧ a.hi ≤ a.arr.size c
